@@ -97,3 +97,22 @@ Theorem C05_moment_by_triangles : forall (profile : list (pt2 R)), (3 <= length 
 Proof.
   intros profile Hn Hc. rewrite (moment_by_triangles profile Hn Hc). f_equal. apply map_ext. intros t. apply tri_moment_area.
 Qed.
+
+(* ---- "every end cap is a valid triangulation of the ring it closes, whatever direction the path points in" ----
+   For every fan-convex profile (C03_fanconv_complete: every strictly convex outline, every rounded rectangle) and every
+   open path whose last two points differ, the end cap of the sweep -- the last ring projected along the dominant axis of
+   the end direction, as the implementation does -- is completely triangulated: the projected ring is the profile under
+   a map of the plane that multiplies all orientations by a non-zero number (up to sign the component of the unit end
+   direction along that axis), so it is fan-convex again, possibly with the other winding. With C03_complete_tiling /
+   C03_complete_area the cap is then an exact tiling of that ring. *)
+From SCAD Require Import Geom.Tri_convex Geom.Fan_convex Geom.Sweep_caps.
+Theorem C05_sweep_end_cap_complete : forall (profile : list (pt2 R)) (path : list (pt3 R)) (twist : R),
+  let len := Z.of_nat (length path) in
+  (3 <= length profile)%nat -> fanconv false (enumerate profile) -> nthp3 path (len - 2) <> nthp3 path (len - 1) ->
+  complete (enumerate (map (project (sweep_end_normal path)) (sweep_last_points profile path twist false))).
+Proof. exact sweep_end_cap_complete. Qed.
+Theorem C05_projected_ring_orientations : forall (P Q c : pt3 R) (theta : R), P <> Q ->
+  exists D, D <> 0 /\ forall p1 p2 p3 : pt2 R,
+    orientR (project (pt3_sub Q P) (placed (mt4_look_at_lh P Q up_z) theta c p1)) (project (pt3_sub Q P) (placed (mt4_look_at_lh P Q up_z) theta c p2))
+            (project (pt3_sub Q P) (placed (mt4_look_at_lh P Q up_z) theta c p3)) = D * orientR p1 p2 p3.
+Proof. exact projected_ring_scales. Qed.
